@@ -13,6 +13,7 @@ from fsmc.design import MachineryError
 from checks import c10_ref as ref
 from checks.c10_b2b import B2BHarness, burst_space, groups_of, QUICK_LENS
 from checks.c10_conv import ConvHarness
+from checks.c10_pipe import PipeReadHarness, PIPE, pairs as pipe_pairs
 
 PROPERTY = "C10"
 LEVEL = "model_checking"
@@ -220,6 +221,7 @@ _conv()
 def configs(tier):
     out = [(n,) for n, (t, kw) in B2B.items() if t == "quick" or tier == "thorough"]
     out += [(n,) for n, (t, kw) in CONV.items() if t == "quick" or tier == "thorough"]
+    out += [(n,) for n, (t, kw) in PIPE.items() if t == "quick" or tier == "thorough"]
     return out
 
 
@@ -231,6 +233,9 @@ def mk(name):
     if name in B2B:
         kw = B2B[name][1]
         return lambda: B2BHarness(name, kw["burst"], kw["size"], kw.get("caps", (0, 1, 2)))
+    if name in PIPE:
+        kw = PIPE[name][1]
+        return lambda: PipeReadHarness(name, kw["cls"], kw["dwf"], kw["dwt"])
     kw = CONV[name][1]
     return lambda: ConvHarness(name, kw["cls"], kw["dwf"], kw["dwt"], kw["mode"], kw["sideband"])
 
@@ -275,6 +280,13 @@ def run_config(cfg, seed, tier):
             if kw["burst"] == ref.WRAP and not cov["wrapped_bursts"]:
                 raise MachineryError(f"{name}: no WRAP burst wrapped")
         tot["bursts"] = len(space)
+    elif name in PIPE:
+        kw = PIPE[name][1]
+        space = pipe_pairs(kw["dwf"], kw["dwt"])
+        H.set_group(space)
+        _merge(tot, ex.run(), viol, failing, f"{len(space)} pairs of reads")
+        cov = H.cover_report()
+        tot["bursts"] = 2 * len(space)
     else:
         kw = CONV[name][1]
         space = conv_bursts(kw["cls"], kw["dwf"], kw["dwt"], kw["klass"], tier, kw.get("part"))
